@@ -18,13 +18,16 @@ Theorem C18_fifo_exact : fifo_exact_stmt.
 Proof. exact fifo_exact. Qed.
 Theorem C18_fifo_prefix : fifo_prefix_stmt.
 Proof. exact fifo_prefix. Qed.
-(* callback endpoints: the full statement is HubProofs.fifo_exact_cb_stmt (one receiver
-   thread and one sender thread for the key, no connect after a disconnect) — NOT proved.
-   Proved for every key: the queue path is exactly-once and in order, and callback
-   deliveries go to endpoints of that key (see the comment at fifo_exact_cb_partial). *)
-Definition C18_fifo_exact_cb_full_statement : Prop := fifo_exact_cb_stmt.
-Theorem C18_fifo_exact_cb_partial : fifo_exact_cb_partial_stmt.
-Proof. exact fifo_exact_cb_partial. Qed.
+(* callback endpoints: the key k belongs to ONE endpoint thread r (no later endpoint re-uses
+   it) that never connects again after a disconnect, and messages to k come from ONE thread
+   (which may disconnect and reconnect): then also with callback delivery received is a
+   prefix of sent and the remainder is the pending queue *)
+Theorem C18_fifo_exact_cb : fifo_exact_cb_stmt.
+Proof. exact fifo_exact_cb. Qed.
+(* ... and nothing is stranded: the queue of such a callback endpoint is non-empty only after
+   it has removed its callback in a disconnect and has no connect left *)
+Theorem C18_cb_not_stranded : cb_not_stranded_stmt.
+Proof. exact cb_not_stranded. Qed.
 
 (* the unrestricted statement (every key, callback endpoints and key re-use included) *)
 Definition fifo_all_stmt (v : variant) : Prop :=
@@ -63,8 +66,8 @@ Qed.
 Example C18_fifo_example :
   let cfg := [((0, 1, 0), false, [Connect; Send 1; Send 2; Recv false; Disconnect]);
               ((1, 0, 0), false, [Connect; Recv false; Recv true; Send 3; Disconnect])] in
-  let sch := [0;0;0;0;1;1;0;0;0;0;1;1;0;0;0;0;0;0;0;1;1;1;1;1;1;1;1;1;1;1;0;0;1;0;0;0;0;0;1;1;1;1;1;1;0;1;
-              0;0;0;0;0;0;0;0;0;0;0;0;1;1;1;1;1;1;1;1;1] in
+  let sch := [0;0;0;0;1;1;0;0;0;0;1;1;0;0;0;0;0;0;0;1;1;1;1;1;1;1;1;1;1;0;0;0;0;1;1;1;1;1;1;1;
+              0;0;0;0;0;0;0;0;0;0;0;0;0;0;1;1;1;1;1;1;1;1;1] in
   let s := run Fixed (init cfg) sch in
   plain cfg (1, 0, 0) /\ sole cfg (1, 0, 0) 1 /\
   sent_log (1, 0, 0) (s_tr s) = [1; 2] /\ recv_log (1, 0, 0) (s_tr s) = [1] /\ qget (1, 0, 0) (s_q s) = [2] /\
@@ -115,11 +118,22 @@ Proof. exact recv_nb_sound. Qed.
 Theorem C18_recv_nb_step : recv_nb_step_stmt.
 Proof. exact recv_nb_step. Qed.
 
+(* a receive never fails with IndexError, whatever the number of threads receiving on one key *)
+Theorem C18_recv_never_index_error : recv_never_index_error_stmt.
+Proof. exact recv_never_index_error. Qed.
+(* the unrepaired recv (length check and pop in two locked regions) does: defect 3 *)
+Theorem C18_orig_recv_index_error_refuted :
+  let cfg := [((0, 1, 0), false, [Connect; Send 1]); ((1, 0, 0), false, [Connect; Recv false]);
+              ((1, 0, 0), false, [Connect; Recv false])] in
+  let s := run Orig (init cfg) [0;0;1;0;0;0;0;0;0;0;0;1;1;1;1;1;1;2;2;2;2;2;2;1;2;1;1;2;2;2] in
+  map (fun th => rev (t_out th)) (s_th s) = [[ROk; ROk]; [ROk; RMsg 1]; [ROk; RIndexErr]].
+Proof. vm_compute. reflexivity. Qed.
+
 Example C18_recv_nb_example :
   (* a non-blocking receive before anything was sent reports emptiness; the next one,
      after the send, returns the message *)
   let cfg := [((0, 1, 0), false, [Connect; Send 7]); ((1, 0, 0), false, [Connect; Recv true; Recv true])] in
-  let sch := [0;0;0;0;1;1;1;1;1;0; 1;1;1;1; 0;0;0;0;0;0;0; 1;1;1;1;1;1;1] in
+  let sch := [0;0;0;0;1;1;0;0;0;0;1;1;1;1;1;1;1;0;0;0;0;1;1;1;1;1] in
   let s := run Fixed (init cfg) sch in
   map (fun th => rev (t_out th)) (s_th s) = [[ROk; ROk]; [ROk; REmpty; RMsg 7]] /\
   In (ELen (1, 0, 0) 0) (s_tr s) /\ In (ELen (1, 0, 0) 1) (s_tr s).
@@ -189,7 +203,10 @@ Proof. vm_compute. repeat split; reflexivity. Qed.
 
 Print Assumptions C18_fifo_exact.
 Print Assumptions C18_fifo_prefix.
-Print Assumptions C18_fifo_exact_cb_partial.
+Print Assumptions C18_fifo_exact_cb.
+Print Assumptions C18_cb_not_stranded.
+Print Assumptions C18_recv_never_index_error.
+Print Assumptions C18_orig_recv_index_error_refuted.
 Print Assumptions C18_fifo_all_refuted.
 Print Assumptions C18_orig_fifo_refuted.
 Print Assumptions C18_quiescent_complete.
